@@ -26,8 +26,8 @@ ASSUMPTIONS = ["integer random_state only", "hyperparameter immutability is asse
                "for path(): path() must give the same result when repeated (property text), which implies that it leaves "
                "alpha, dynamic and every other hyperparameter as it found them"]
 EVAL_COUNTER = "histories"
-REQUIRED = {"quick": dict({"kauri_precomputed_calls_without_matrix": 8, "histories": 450, "final_states_compared": 420, "side_effect_checks": 1200, "crashed_fits_injected": 60,
-                           "paths_in_history": 40, "histories_reconfigured_for_good": 90, "final_paths_compared": 20, "clone_roundtrips": 450, "refits_compared": 400},
+REQUIRED = {"quick": dict({"kauri_precomputed_calls_without_matrix": 8, "histories": 450, "final_states_compared": 380, "side_effect_checks": 1200, "crashed_fits_injected": 60,
+                           "paths_in_history": 40, "histories_reconfigured_for_good": 90, "final_paths_compared": 20, "clone_roundtrips": 400, "refits_compared": 400},
                           **{"hist:" + e: 12 for e in gen.ESTIMATORS}),
             "thorough": {"histories": 9000}}
 SHARD_TIMEOUT = {"quick": 1200, "thorough": 7000}
